@@ -102,8 +102,12 @@ func ParseErr(s string) (cl []Clause, framing string) {
 
 // AmbiguousText reports whether a value or message would make the error text
 // format itself ambiguous for any parser (excluded by construction, counted).
-func AmbiguousText(s string) bool {
+func AmbiguousText(s string) bool { return AmbiguousMsg(s) || strings.Contains(s, `"`) }
+
+// AmbiguousMsg is AmbiguousText for custom messages: a double quote inside a message is harmless
+// (the message is the last part of its clause; only the echoed value is delimited by quotes).
+func AmbiguousMsg(s string) bool {
 	// (the text sits between blanks in a clause: " "+s+" " covers a separator formed with the context,
 	// e.g. a message ending in ";" under the default separator)
-	return strings.Contains(" "+s+" ", Sep) || strings.Contains(s, `"`) || strings.Contains(s, "explain:") || strings.Contains(s, "说明:") || strings.HasSuffix(s, ";")
+	return strings.Contains(" "+s+" ", Sep) || strings.Contains(s, "explain:") || strings.Contains(s, "说明:") || strings.HasSuffix(s, ";")
 }
